@@ -33,5 +33,10 @@ def run(ctx):
     ctx.explain("E-CARRY: in Natural's multi-digit addition no computed carry is overwritten before it is read.")
     fns, defs = ecarry.run(ctx, F)
     ctx.floor("E-CARRY", "carry definitions checked", defs, 8)
+    ctx.explain("E-NUM.rawview: Natural keeps a possibly unnormalised digit array (Add may leave a most-significant zero digit); "
+                "mantissa() strips it, mantissa_raw() does not. Who-may-call: the raw view is read only by bit_width and "
+                "u128::try_from (reviewed); every consumer of the top digit goes through mantissa().")
+    n = ecarry.check_raw_view(ctx, F)
+    ctx.floor("E-NUM.rawview", "functions reading the raw digit view", n, 2)
     ctx.not_decided = ("exactness of the number types beyond the carry chain (shifts, comparisons, conversions, textual "
                        "output), the scaling by 2^vars around the recursion")
